@@ -148,6 +148,25 @@ def alternatives(t):
     return list(t[1:])
 
 
+def blame(tterm, value, ctx, obj, exc_out):
+    """The innermost alternative whose own Python validate lets `exc_out` escape
+    (or that has no Python validate at all), as a family name."""
+    head = tterm[0] if isinstance(tterm, list) else tterm
+    if head in ("Either", "CompoundH"):
+        for a in alternatives(tterm):
+            pa = Paths(a, ctx)
+            if not pa.has_py:
+                return "no-python-validate:" + V.trait_head(a), a
+            out, _, _ = V.show_outcome(lambda: pa.py(obj, value), ctx)
+            if out == exc_out:
+                return blame(a, value, ctx, obj, exc_out)
+            if out != "TraitError":
+                break
+        return None, None
+    hd = V.trait_head(tterm)
+    return FAMILY.get(hd, "function" if hd.startswith("FunctionH") else hd), tterm
+
+
 def differential(tterm, value, ctx, obj):
     """Differences between the two real paths, attributed to the innermost trait
     term that shows one on its own; list of (signature, what)."""
@@ -162,22 +181,15 @@ def differential(tterm, value, ctx, obj):
     subs = []
     head = tterm[0] if isinstance(tterm, list) else tterm
     if head in ("Either", "CompoundH"):
-        alts = alternatives(tterm)
-        for a in alts:
+        for a in alternatives(tterm):
             subs += differential(a, value, ctx, obj)[0]
         if not subs and kind == "py-raises-fast-accepts":
-            # which alternative's Python validate let the exception out
-            for a in alts:
-                pa = Paths(a, ctx)
-                if pa.has_py:
-                    out, _, _ = V.show_outcome(lambda: pa.py(obj, value), ctx)
-                    if out == py:
-                        hd = V.trait_head(a)
-                        fam = FAMILY.get(hd, "function" if hd.startswith("FunctionH") else hd)
-                        return [("compound-alternative-raises:%s:%s" % (fam, py[4:]),
-                                 "%s on %s: Python validate of alternative %s raises %s out of the compound, "
-                                 "the fast path moves on to the next alternative and accepts" % (
-                                     V.show_sexp(tterm), V.show_value(value, ctx), V.show_sexp(a), py[4:]))], fast, py
+            fam, a = blame(tterm, value, ctx, obj, py)
+            if fam is not None:
+                return [("compound-alternative-raises:%s:%s" % (fam, py[4:]),
+                         "%s on %s: Python validate of alternative %s raises %s out of the compound, "
+                         "the fast path moves on to the next alternative and accepts" % (
+                             V.show_sexp(tterm), V.show_value(value, ctx), V.show_sexp(a), py[4:]))], fast, py
     elif head == "Tuple" and isinstance(value, tuple) and len(value) == len(tterm) - 1:
         for a, x in zip(tterm[1:], value):
             subs += differential(a, x, ctx, obj)[0]
@@ -199,7 +211,10 @@ def differential(tterm, value, ctx, obj):
     if head == "Tuple" and vc == "ts" and kind == "exact-type-differs":
         return [("tuple-subclass-exact-type", what)], fast, py
     if head == "CoerceH":
-        return [("%s:CoerceH" % kind, what)], fast, py
+        # two root causes: isinstance (C) against `type(value) is` (Python), and the
+        # CoercableTypes tuples that list the coercible types as as-is types
+        cause = "coerce-python-compares-exact-types" if kind == "py-rejects-fast-accepts" else "coerce-fast-skips-conversion"
+        return [(cause, what)], fast, py
     return [("%s:%s:%s" % (kind, hd, vc), what)], fast, py
 
 
